@@ -57,6 +57,7 @@ from dataclasses import asdict
 from dataclasses import dataclass
 from dataclasses import field
 from dataclasses import fields
+import decimal
 from decimal import getcontext
 from enum import Enum
 from typing import Any
@@ -324,6 +325,10 @@ class FlatColumn:
                 return str(o)
             if isinstance(o, Expectation):
                 return o.__dict__
+            if isinstance(o, decimal.Decimal):
+                return str(o)
+            if isinstance(o, bytes):
+                return o.decode("utf-8")
             raise TypeError(f"Object of type {o.__class__.__name__} is not JSON serializable")
 
         return orjson.dumps(asdict(self), default=default_serializer)
